@@ -190,6 +190,9 @@ def main(argv):
     os.environ['PYTHONHASHSEED'] = '0'
     import logging
     logging.disable(logging.CRITICAL)
+    # a hang (e.g. a deadlock inside the code under test) must end the check, not stall it
+    import faulthandler
+    faulthandler.dump_traceback_later(int(os.environ.get('VERIF_WATCHDOG_S', '1500' if tier == 'quick' else '10800')), exit=True)
     st = build.ensure_build()
     ctx.build = st
     mod = importlib.import_module('props.' + pid.lower())
